@@ -233,3 +233,18 @@ def plain_snoc(a, x):
 @lemma((("a", "vl"), ("b", "vl")), induct="a")
 def vlen_app(a, b):
     return vlen(app(a, b)) == vlen(a) + vlen(b)
+
+
+@lemma((("a", "vl"), ("x", "val"), ("t", "vl")), induct="a")
+def app_app1(a, x, t):
+    return app(app(a, cons(x, nil())), t) == app(a, cons(x, t))
+
+
+@lemma((("a", "vl"), ("x", "val")), induct="a")
+def sized_snoc(a, x):
+    return sized_list(snoc(a, x)) == (sized_list(a) and sized(x))
+
+
+@lemma((("a", "vl"), ("x", "val")), induct="a")
+def vlen_snoc(a, x):
+    return vlen(snoc(a, x)) == vlen(a) + 1
